@@ -224,6 +224,24 @@ class Tracer:
         F = self.F
         fq = c.get("fq") or ""
         args = c.get("args", [])
+        if fq in ("std::for_each", "std::generate_n", "std::generate", "std::transform", "std::for_each_n") and args:
+            # a loop written as an algorithm: the lambda's body is the loop body (the stream is captured, same variable)
+            ats = [fn.term(a) for a in args]
+            lams = [t for t in ats if t[0] == "lambda"]
+            lam = F.functions.get(lams[0][1]) if len(lams) == 1 else None
+            if lam is not None and lam.cfg:
+                env2 = dict(env)
+                if lam.params and ats[0][0] == "call" and ats[0][1].split("::")[-1] in ("begin", "cbegin") and ats[0][2] is not None:
+                    p0 = lam.params[0]
+                    env2[("var", p0["n"], p0["d"])] = self.npath(fn, ats[0][2], env, vt) + "[]"
+                sub = Tracer(F, self.roots, self.max_depth)
+                sub.sites = 0
+                vt2 = sub.var_types(lam)
+                vt2.update(vt)
+                body = sub.walk(lam, lam.body, stream, env2, vt2, depth + 1)
+                self.sites += sub.sites
+                self.prim_sites += sub.prim_sites
+                return [["loop", body]] if body else []
         obj = fn.term(c["obj"]) if "obj" in c else None
         if obj is not None and obj[0] == "un" and obj[1] == "*":
             obj_n = obj
